@@ -267,6 +267,7 @@ class C21(Check):
         res = ShardResult()
         if not jitlab.shard_enabled(shard):
             res.dropped["shard-not-selected(VERIF_ONLY_SHARDS)"] += 1
+            res.exhaustive["all-shards-run"] = False
             return res
         cfgs = [c for c in itertools.product(ML, MEPC, CACHE, BMAX) if c != REF] if tier == "thorough" \
             else pairwise_configs()
